@@ -469,4 +469,39 @@ Proof.
     rewrite Nat2Z.id, twin_window by assumption.
     rewrite IH by lia. unfold tpre. cbn [fst snd windows]. reflexivity.
 Qed.
+
+(* ----------------------------- Pclump / Pslide stated on patterns *)
+Lemma pclump_groups_l k m q (n : nat) l : (1 <= n)%nat ->
+  den (S k) Str q = (l, EStop) -> (length l < k)%nat ->
+  let groups := chunk (length l) n l in
+  den (S (S k)) m (Pclump q (PVal (VN (I (Z.of_nat n))))) = (map VL groups, EStop) /\
+  concat groups = l /\
+  Forall (fun g => (1 <= length g <= n)%nat) groups /\
+  Forall (fun g => length g = n) (removelast groups).
+Proof.
+  intros Hn H Hl groups. split.
+  - change (den (S (S k)) m (Pclump q (PVal (VN (I (Z.of_nat n))))))
+      with (tclump (fst (den (S k) Str (PVal (VN (I (Z.of_nat n)))))) (snd (den (S k) Str (PVal (VN (I (Z.of_nat n))))))
+                   (fst (den (S k) Str q)) (snd (den (S k) Str q))).
+    rewrite H. change (den (S k) Str (PVal (VN (I (Z.of_nat n))))) with (repeat (VN (I (Z.of_nat n))) k, EMore).
+    cbn [fst snd]. apply tclump_const_chunks; try assumption. lia.
+  - apply chunk_spec. exact Hn. lia.
+Qed.
+Lemma pslide_windows_l k m lst (len r : nat) (step start : Z) : lst <> [] ->
+  (forall q, In q lst -> snd (den (S k) Emb q) = EStop) -> (r <= k)%nat ->
+  den (S (S k)) m (Pslide lst (PVal (VN (I (Z.of_nat len)))) (PVal (VN (I step))) start true (Fin (Z.of_nat r)))
+  = (windows (den (S k) Emb) lst len start step r, EStop).
+Proof.
+  intros Hne Hc Hr.
+  change (den (S (S k)) m (Pslide lst (PVal (VN (I (Z.of_nat len)))) (PVal (VN (I step))) start true (Fin (Z.of_nat r))))
+    with (match lst with
+          | [] => ([], EErr)
+          | _ => tslide (den (S k) Emb) lst true (cnt_of (Fin (Z.of_nat r))) (I start)
+                   (fst (den (S k) Str (PVal (VN (I (Z.of_nat len)))))) (snd (den (S k) Str (PVal (VN (I (Z.of_nat len))))))
+                   (fst (den (S k) Str (PVal (VN (I step))))) (snd (den (S k) Str (PVal (VN (I step))))) end).
+  destruct lst as [|q0 l']; [congruence|].
+  change (den (S k) Str (PVal (VN (I (Z.of_nat len))))) with (repeat (VN (I (Z.of_nat len))) k, EMore).
+  change (den (S k) Str (PVal (VN (I step)))) with (repeat (VN (I step)) k, EMore).
+  cbn [fst snd cnt_of]. rewrite Nat2Z.id. apply tslide_windows; assumption.
+Qed.
 End Meaning.
